@@ -3,6 +3,7 @@
   every line (text + tags), every offered choice (text + tags), the end status and the final
   global values along EVERY sequence of choices, down to a depth bound; `complete` tells whether
   the bound cut any path (if not, the exploration covers all choice paths of the story).
+  Log entries are JSON values so that the same log can be produced from the real runtime.
   Core Lean only.
 -/
 import Ink.Api
@@ -10,64 +11,66 @@ import Ink.Api
 namespace Ink
 namespace Explore
 
+def jpath (p : List Nat) : Json := .arr (p.map (fun n => Json.num (Int.ofNat n)))
+def jtags (t : List String) : Json := .arr (t.map .str)
+
 /-- Lines of one turn: continue until the story stops; each line with its tags.  An error ends the
-    turn (its kind is recorded). -/
-def turnLines : Nat → Story → List String → List String × Story
-  | 0, st, acc => (acc ++ ["<fuel>"], st)
+    turn (its kind is recorded).  `shuffle = true` blanks the text of the lines (stories whose text
+    depends on the shuffle order are compared modulo the shuffle). -/
+def turnLines (shuffle : Bool) : Nat → Story → List Json → List Json × Story × Bool
+  | 0, st, acc => (acc ++ [.arr [.str "e", .str "fuel"]], st, true)
   | fuel + 1, st, acc =>
     if st.canContinue then
       match st.cont with
       | (.ok t, st1) =>
-        let tags := st1.state.currentTags
-        turnLines fuel st1 (acc ++ [t ++ " #" ++ " #".intercalate tags])
-      | (.err k _, st1) => (acc ++ ["<error " ++ k ++ ">"], st1)
-      | (.panic _, st1) => (acc ++ ["<panic>"], st1)
-    else (acc, st)
+        turnLines shuffle fuel st1 (acc ++ [.arr [.str "l", .str (if shuffle then "" else t), jtags st1.state.currentTags]])
+      | (.err k _, st1) => (acc ++ [.arr [.str "e", .str k]], st1, true)
+      | (.panic _, st1) => (acc ++ [.arr [.str "e", .str "panic"]], st1, true)
+    else (acc, st, false)
 
-/-- Names of the globals, sorted (the declaration order of two compilers may differ). -/
 def insertSorted (x : String) : List String → List String
   | [] => [x]
   | y :: ys => if x < y then x :: y :: ys else y :: insertSorted x ys
 
-def globalsOf (st : Story) (names : List String) : List String :=
-  (names.foldl (fun acc n => insertSorted n acc) []).map (fun n =>
-    n ++ "=" ++ (match st.getVariableHost n with
-      | some v => v.display
-      | none => "<none>"))
+def globalsOf (st : Story) (names : List String) : Json :=
+  .arr ((names.foldl (fun acc n => insertSorted n acc) []).map (fun n =>
+    .arr [.str n, (match st.getVariableHost n with
+      | some v => encVal v
+      | none => .null)]))
 
 /-- Depth-first exploration; returns the observation log (pre-order) and whether it is complete. -/
-def go (names : List String) (lineFuel : Nat) : Nat → Story → List Nat → List String × Bool
-  | 0, _, path => (["@" ++ toString path ++ " <depth>"], false)
+def go (names : List String) (shuffle : Bool) (lineFuel : Nat) : Nat → Story → List Nat → List Json × Bool
+  | 0, _, path => ([.arr [.str "cut", jpath path]], false)
   | depth + 1, st, path =>
-    let (lines, st1) := turnLines lineFuel st []
+    let (lines, st1, stopped) := turnLines shuffle lineFuel st []
     let (choices, st2) := st1.currentChoices
-    let here := ["@" ++ toString path] ++ lines ++
-      choices.map (fun c => "* " ++ c.text ++ " #" ++ " #".intercalate c.tags)
-    if choices.isEmpty || lines.any (fun l => l.startsWith "<") then
-      (here ++ ["= " ++ "; ".intercalate (globalsOf st2 names)], !(lines.any (fun l => l == "<fuel>")))
+    let here := [.arr [.str "@", jpath path]] ++ lines ++
+      choices.map (fun c => .arr [.str "c", .str c.text, jtags c.tags])
+    if choices.isEmpty || stopped then
+      (here ++ [.arr [.str "g", globalsOf st2 names]], true)
     else
-      (List.range choices.length).foldl (fun (acc : List String × Bool) i =>
+      (List.range choices.length).foldl (fun (acc : List Json × Bool) i =>
         match st2.chooseChoiceIndex i with
         | (.ok (), st3) =>
-          let (log, c) := go names lineFuel depth st3 (path ++ [i])
+          let (log, c) := go names shuffle lineFuel depth st3 (path ++ [i])
           (acc.1 ++ log, acc.2 && c)
-        | _ => (acc.1 ++ ["@" ++ toString (path ++ [i]) ++ " <choose failed>"], acc.2)) (here, true)
+        | _ => (acc.1 ++ [.arr [.str "e", .str "choose", jpath (path ++ [i])]], acc.2)) (here, true)
 
 /-- Load a story document and explore it. -/
-def exploreDoc (text : String) (names : List String) (depth : Nat) (seed : Int) : List String × Bool :=
+def exploreDoc (text : String) (names : List String) (shuffle : Bool) (depth : Nat) (seed : Int) : List Json × Bool :=
   let cs := text.toList
   match Load.loadStory (2 * cs.length + 16) (Json.parse cs) with
   | .ok ld =>
     match Story.create ld seed with
-    | .ok st => go names 400 depth { st with fuel := some 200000 } []
-    | _ => (["<create failed>"], true)
-  | _ => (["<load failed>"], true)
+    | .ok st => go names shuffle 400 depth { st with fuel := some 200000 } []
+    | _ => ([.str "create failed"], true)
+  | _ => ([.str "load failed"], true)
 
 /-- Two story documents behave identically along every choice path down to `depth`; the second
-    component says whether that is ALL choice paths. -/
-def agree (a b : String) (names : List String) (depth : Nat) : Bool × Bool :=
-  let (la, ca) := exploreDoc a names depth 1
-  let (lb, cb) := exploreDoc b names depth 1
+    component says whether that is ALL choice paths of both. -/
+def agree (a b : String) (names : List String) (shuffle : Bool) (depth : Nat) : Bool × Bool :=
+  let (la, ca) := exploreDoc a names shuffle depth 1
+  let (lb, cb) := exploreDoc b names shuffle depth 1
   (la == lb, ca && cb)
 
 end Explore
